@@ -1,6 +1,7 @@
 package main
 
 import (
+	"regexp"
 	"bytes"
 	"context"
 	"fmt"
@@ -159,6 +160,15 @@ func solveAll(obls []*Obligation, workDir string, secs int, workers int) {
 					}
 				}
 			}
+			if !o.Cover && len(o.Lens) > 0 {
+				// case split on "the goal's index is the position just appended" (sound: both cases are proved)
+				lfile := strings.TrimSuffix(file, ".smt2") + ".lite.smt2"
+				if name, dur, ok := splitOnLength(lfile, o.Lens, liteSecs(secs)); ok {
+					fi, _ := os.Stat(lfile)
+					o.Result = &SolveResult{Status: "unsat", Solver: name + "(ground,split)", TimeS: dur, File: lfile, Bytes: int(fi.Size()), Tried: []string{"ground:split:unsat"}}
+					return
+				}
+			}
 			text := o.ctx.render(o.PC, o.Goal, o.Cover, o.Cands, o.Lens, false)
 			os.WriteFile(file, []byte(header+text), 0o644)
 			if o.Cover {
@@ -169,6 +179,47 @@ func solveAll(obls []*Obligation, workDir string, secs int, workers int) {
 		}(i, o)
 	}
 	wg.Wait()
+}
+
+var skolemDeclRe = regexp.MustCompile(`\(declare-fun (sk![^ ]+) \(\) Int\)`)
+
+// splitOnLength tries to prove a ground query by cases sk = L / sk != L for a skolem index sk of the
+// goal and the length L of a slice that was appended to on the path. Both cases must be unsat.
+func splitOnLength(lfile string, lens []string, secs int) (string, float64, bool) {
+	data, err := os.ReadFile(lfile)
+	if err != nil {
+		return "", 0, false
+	}
+	text := string(data)
+	var sks []string
+	for _, m := range skolemDeclRe.FindAllStringSubmatch(text, 3) {
+		sks = append(sks, m[1])
+	}
+	t0 := time.Now()
+	for _, sk := range sks {
+		for i, l := range lens {
+			if i >= 2 {
+				break
+			}
+			okBoth := true
+			var who string
+			for c, extra := range []string{"(assert (= " + sk + " " + l + "))", "(assert (not (= " + sk + " " + l + ")))"} {
+				q := strings.Replace(text, "(check-sat)", extra+"\n(check-sat)", 1)
+				qf := strings.TrimSuffix(lfile, ".smt2") + fmt.Sprintf(".case%d.smt2", c)
+				os.WriteFile(qf, []byte(q), 0o644)
+				name, _, _, ok := raceUnsat(qf, secs, solvers[1], solvers[0])
+				if !ok {
+					okBoth = false
+					break
+				}
+				who = name
+			}
+			if okBoth {
+				return who, time.Since(t0).Seconds(), true
+			}
+		}
+	}
+	return "", time.Since(t0).Seconds(), false
 }
 
 // raceUnsat runs the given solvers on one file concurrently and reports the first "unsat".
